@@ -487,20 +487,22 @@ def run_c18() -> int:
             chk.violation("C18: a valid tiny design run did not exit 0 with its outputs", {"rc": rc, "stderr": err})
             return chk.finish()
         # de-duplicate cases that the command line cannot distinguish
+        # Only what the command line cannot express is collapsed: the summary flag matters for "--convert IDF <summary>" alone, and
+        # then the input file (valid / design outcome) is not on the command line at all. Every other combination of options,
+        # including an unsupported --convert together with an output directory, is a different invocation and is run.
         seen = {}
         for c in cases:
             k = dict(c["case"])
-            if k["vonly"]:
-                k.update(convert="none", outdir=False, designOK=True, summaryOK=True)
-            elif k["convert"] != "none":
-                k.update(outdir=False, designOK=True, valid=True)
-                if k["convert"] == "other":
-                    k["summaryOK"] = True
+            if not k["vonly"] and k["convert"] == "IDF":
+                k.update(designOK=True, valid=True)
             else:
                 k["summaryOK"] = True
-                if not k["outdir"] or not k["valid"]:
-                    k["designOK"] = True
-            seen.setdefault(tuple(sorted(k.items())), c)
+            if not k["valid"]:
+                k["designOK"] = True          # the schema-invalid input is the same file either way
+            key = tuple(sorted(k.items()))
+            if key in seen and (seen[key]["exit"], seen[key]["outputs"], seen[key]["idf"]) != (c["exit"], c["outputs"], c["idf"]):
+                raise MachineryError(f"Cli.tla gives two verdicts for one invocation: {k}")
+            seen.setdefault(key, c)
         items = [{"case": dict(k), "expect": c, "summary_dir": str(sdir / "sum")} for k, c in seen.items()]
         for it, r in zip(items, parallel_map(_cli_case, items)):
             chk.nontrivial.add(tuple(sorted(it["case"].items())))
